@@ -7,7 +7,7 @@ PY_SUBSET = ('Python semantics of the executed subset as encoded by pyvc.symexec
 PROPS = {
     'C04': {
         'level': 'proof',
-        'proof': [('contracts.lcs', None)],
+        'proof': [('contracts.lcs', None), ('contracts.nm_update', None)],
         'bounded': [],
         'assumptions': [PY_SUBSET],
         'explanation': 'edit-script correctness of lcs.diff/_diff/_matrix proved for all sequences',
